@@ -167,6 +167,13 @@ type vfEpCfg struct {
 	Sched      string  `json:"sched"` // "", "wfq", "rr"
 	MaxReasm   uint32  `json:"maxreasm"`
 	Server     bool    `json:"server"` // role: server (waits for INIT) instead of client
+	// token starts only: the association is created with the OPPOSITE interleaving / zero-checksum option from the one
+	// its (already exchanged) token announces. The peer negotiates from the token alone, so the token must win.
+	// the Zero Checksum Acceptable parameter this endpoint sends is rewritten in transit to name another error
+	// detection method than DTLS: the peer was NOT told that zero checksums are acceptable
+	ZCForeign bool `json:"zcforeign"`
+	OptFlipIL bool `json:"optflipil"`
+	OptFlipZC bool `json:"optflipzc"`
 }
 
 func (c vfEpCfg) norm() vfEpCfg {
@@ -516,7 +523,7 @@ func (w *vfWorld) cfgEvent() {
 		m[n] = map[string]any{"il": c.IL, "zc": c.ZC, "mtu": int(c.MTU), "buf": int(c.Buf), "maxmsg": int(c.MaxMsg),
 			"W":      int((getMaxTSNOffset(c.Buf) + 63) / 64 * 64),
 			"rtomax": int(c.RTOMax), "bw": c.BlockWrite, "mincwnd": int(c.MinCwnd), "sched": c.Sched,
-			"server": c.Server, "wrapdist": vfWrapDist(c.InitTSN)}
+			"server": c.Server, "wrapdist": vfWrapDist(c.InitTSN), "zcforeign": c.ZCForeign}
 	}
 	w.tr.emit(m)
 }
@@ -537,7 +544,7 @@ func (w *vfWorld) options(i int) []AssociationOption {
 		lf = vfSlowLoggerFactory{*c.SlowLog}
 	}
 	opts := []AssociationOption{WithNetConn(w.ep[i].conn), WithLoggerFactory(lf),
-		WithName([]string{"A", "B"}[i]), WithEnableInterleaving(c.IL), WithEnableZeroChecksum(c.ZC),
+		WithName([]string{"A", "B"}[i]), WithEnableInterleaving(c.IL != c.OptFlipIL), WithEnableZeroChecksum(c.ZC != c.OptFlipZC),
 		WithMTU(c.MTU), WithMaxReceiveBufferSize(c.Buf), WithMaxMessageSize(c.MaxMsg), WithBlockWrite(c.BlockWrite)}
 	if c.RTOMax != 0 {
 		opts = append(opts, WithRTOMax(c.RTOMax))
